@@ -254,6 +254,15 @@ def generate(seed, prop):
             ops.append(op)
         else:
             ops.append({"op": name})
+    if rng.random() < 0.25:
+        # biased schedule: two objects of one class whose dict-valued attributes have different key
+        # sets, the second saved and loaded into the first (an existing, non-default object)
+        cls = rng.choice([c for c in CLASSES if c != "HvsrPreProcessingSettings"])
+        a1, a2 = draw_args(rng, cls), draw_args(rng, cls)
+        a1["fft_settings"], a2["fft_settings"] = draw_fft(rng), rng.choice([None, draw_fft(rng)])
+        pos = rng.randint(0, len(ops))
+        ops[pos:pos] = [{"op": "construct", "cls": cls, "args": a2}, {"op": "save", "i": -1, "path": "sim:/s/z.json", "via": "method"},
+                        {"op": "construct", "cls": cls, "args": a1}, {"op": "load_into", "path": "sim:/s/z.json", "i": -1}]
     return {"machine": "settings", "property": prop, "run_seed": int(seed),
             "config": {"weights": w, "fault_rate": fault_rate, "focus": focus},
             "world": {"records": {"k": rng.randrange(1 << 30), "n": 1001, "rate": 100}}, "ops": ops, "faults": []}
